@@ -353,7 +353,8 @@ def utf8_rule(ctx):
                 oo = origin(b, d[3]['args'][0])
                 o.atoms |= oo.atoms
                 o.calls += oo.calls + [d[3]]
-        ok = any(call_matches(c, ['str::converts::from_utf8']) for c in o.calls) and not any('unchecked' in cname(c) for c in o.calls)
+        ok = any(call_matches(c, ['str::converts::from_utf8']) for c in o.calls) and not any('unchecked' in cname(c) for c in o.calls) \
+            and not any('unchecked' in cname(t_) or 'transmute' in cname(t_) for bb_, t_ in b.calls())
         ctx.ob('UTF8', 'parse_str', ok, short_loc(b.span), 'parse_str returns from_utf8(..).map_err(..): %s' % ok)
 
 
